@@ -662,7 +662,7 @@ def _bs_basex(n=251, sigma=1.0, oldM=None, verbose=True):
             sys.stdout.flush()
 
     if verbose:
-        print(k + 1)
+        print(nbf)
 
     M *= sigma  # applying the sigma factor
 
